@@ -214,7 +214,12 @@ def check_builders(chk, rep, repo):
         okv = (val[0] == "call" and val[1] == ("idx", ("mod", "opfython.math.distance.DISTANCES"), ("param", "distance"))
                and val[2] == (("idx", ("param", "data"), i), ("idx", ("param", "data"), j)))
         okt = e.target[1][2] == i and e.target[2] == j
-        ok = full and okv and okt and not e.guards
+        arr0 = e.target[1][1]
+        okdt = not arr0[3] or dict(arr0[3]) in ({"dtype": ("builtin", "float")}, {"dtype": ("mod", "numpy.float64")})
+        ok = full and okv and okt and not e.guards and okdt
+        if full and okv and okt and not okdt:
+            detail = ("the matrix is allocated with a caller-dependent element type: metric values are truncated / "
+                      "rounded when stored (integer or float32 features), unlike the on-the-fly computation")
         if full and okv and not okt:
             detail = "the cell written is not [i][j] for the pair (i, j) evaluated (transposed or shifted)"
         arr = e.target[1][1]
@@ -238,8 +243,9 @@ def check_builders(chk, rep, repo):
         node = lambda t: ("idx", ("attr", G, "nodes"), t)
         okv = e.value == ("call", ("attr", ("self",), "distance_fn"),
                           (("attr", node(i), "features"), ("attr", node(j), "features")), ())
-        ok = full and okv and e.target[1][2] == i and e.target[2] == j and not e.guards
         D = e.target[1][1]
+        okdt = not D[3] or dict(D[3]) in ({"dtype": ("builtin", "float")}, {"dtype": ("mod", "numpy.float64")})
+        ok = full and okv and e.target[1][2] == i and e.target[2] == j and not e.guards and okdt
         rets = [r for r in w.events if r.kind == "return"]
         alg = TermAlgebra()
         okn = False
@@ -313,6 +319,9 @@ def check_file_agreement(chk, rep, repo):
         delims[ext] = d[1] if d[0] == "const" else None
         rep.ev("FILE-loader-arg", calls[0], calls[0].args[:1] == (("param", lf.params[0]),),
                "the loader must read the path it was given")
+        rep.fn("FILE-loader-fresh", lf, f"{loader} reads the file on every call", not lf.decorators,
+               f"{loader} is wrapped by {lf.decorators}: a cached result survives a rewrite of the same path, so a model "
+               "built after pre_compute_distance gets the old matrix")
     # writer
     fi = repo.need_function("opfython.math.general", "pre_compute_distance")
     ww = Walker(repo, fi, inline=_private_same_module(fi))
@@ -331,14 +340,28 @@ def check_file_agreement(chk, rep, repo):
         rep.ev("FILE-delimiter", sv[0], ok,
                f"a '.{ext}' file is written with delimiter {wrote!r} but read back by {readers[ext]} with {want!r}",
                construct=f"np.savetxt delimiter for .{ext}")
-    fmt = kw.get("fmt")
-    okfmt = fmt is None or (fmt[0] == "const" and isinstance(fmt[1], str) and _digits(fmt[1]) >= 17)
-    rep.ev("FILE-format", sv[0], okfmt, "the distance file must round-trip float64 exactly (>= 17 significant digits)",
-           construct="np.savetxt fmt")
+    check_savetxt_format(rep, sv[0], "FILE-format")
     for k in kw:
         if k not in ("delimiter", "fmt"):
             rep.ev("FILE-extra", sv[0], k in ("newline",), f"np.savetxt option {k}= changes the file layout",
                    construct=f"np.savetxt {k}=")
+
+
+def check_savetxt_format(rep, sv, rule):
+    fmt = dict(sv.kwargs).get("fmt")
+    okfmt = fmt is None or (fmt[0] == "const" and isinstance(fmt[1], str) and _digits(fmt[1]) >= 17)
+    rep.ev(rule, sv, okfmt, "the distance file must round-trip float64 exactly (>= 17 significant digits): rounding the "
+           "stored weights changes their order type (small distances collapse), differently for each metric",
+           construct="np.savetxt fmt")
+
+
+def distance_file_writer(repo):
+    fi = repo.need_function("opfython.math.general", "pre_compute_distance")
+    ww = Walker(repo, fi, inline=_private_same_module(fi))
+    sv = [e for e in ww.events if e.kind == "call" and e.name == "numpy.savetxt"]
+    if len(sv) != 1:
+        raise AnalysisError("pre_compute_distance: expected one np.savetxt call")
+    return sv[0]
 
 
 def _digits(fmt: str) -> int:
